@@ -20,7 +20,7 @@ pub struct VErr;
 pub uninterp spec fn vid(h: &VecH) -> int;
 #[verifier::external_body] pub struct MapH { x: usize }                 // GcMap
 pub uninterp spec fn mid(h: &MapH) -> int;
-pub enum HeapP { ArrayPtr(VecH, usize), Other(OtherV) }
+pub enum HeapP { ArrayPtr(VecH, usize), MapPtr(MapH, Box<Primitive>), Lookup(OtherV) }
 pub enum Primitive { Bool(bool), Int(i32), Optional(Option<Box<Primitive>>), Vector(VecH), Map(MapH), HeapPrimitive(HeapP), Other(OtherV) }
 impl Primitive { #[verifier::external_body] pub fn vclone(&self) -> (r: Primitive) ensures r == *self { unimplemented!() } }
 impl VecH { #[verifier::external_body] pub fn vclone(&self) -> (r: VecH) ensures vid(&r) == vid(self) { unimplemented!() } }
@@ -284,6 +284,7 @@ pub fn index_vector(vector_shared: &VecH, idx: usize, heap: &Heap, stack: &mut V
                         Rule("R13", "ctx . stack_size ( )", "stack . len ( )", why="operand stack as an explicit vector"),
                         Rule("R6", "let primitive_with_flags : PrimitiveFlagsPair = ctx . load_local ( & op_name [ 1 .. ] ) ?", "let primitive_with_flags = load_local ( locals , op_name ) ?", why="frame lookup abstract (the register named after the `+`)"),
                         Rule("R1", "let Primitive :: Vector ( ref vector ) = & * primitive_with_flags . primitive ( ) else", "let Primitive :: Vector ( vector ) = pair_value ( & primitive_with_flags ) else", why="deref of the variable cell"),
+                        Rule("R1", "HeapPrimitive :: $v (", "HeapP :: $v (", why="enum renamed in the model"),
                         ], log, "vec_op[+]")
     check_closed(bp, "vec_op[+]")
     fns.append(f"""
@@ -291,6 +292,8 @@ pub fn index_vector(vector_shared: &VecH, idx: usize, heap: &Heap, stack: &mut V
 pub uninterp spec fn moved_out(p: Primitive) -> Option<Primitive>;
 #[verifier::external_body] pub fn move_out(p: Primitive) -> (r: Result<Primitive, VErr>)
     ensures moved_out(p) is Some ==> r == Ok::<Primitive, VErr>(moved_out(p)->Some_0), moved_out(p) is None ==> r is Err {{ unimplemented!() }}
+impl HeapP {{ #[verifier::external_body] pub fn to_owned_primitive(&self) -> (r: Result<Primitive, VErr>)
+    ensures moved_out(Primitive::HeapPrimitive(*self)) is Some ==> r == Ok::<Primitive, VErr>(moved_out(Primitive::HeapPrimitive(*self))->Some_0), moved_out(Primitive::HeapPrimitive(*self)) is None ==> r is Err {{ unimplemented!() }} }}
 pub fn stack_pop(s: &mut Vec<Primitive>) -> (r: Primitive) requires old(s)@.len() > 0 ensures r == old(s)@.last(), final(s)@ == old(s)@.drop_last() {{ s.pop().unwrap() }}
 #[verifier::external_body] pub struct Locals {{ x: usize }}
 #[verifier::external_body] pub struct Pair {{ x: usize }}
